@@ -96,6 +96,23 @@ def gen(rnd, tier):
                     if not with_empty_read and c["chunks"] and c["chunks"][-1] == []:
                         c["chunks"].pop()
                     cases.append(c)
+    # X10 reports whose coordinate bytes look like the start of a UTF-8 character (lead byte, continuation byte): they
+    # are plain coordinate bytes; alone at the end of the input and followed by more input
+    for cx in (0xC2, 0xC3, 0xDF, 0xE0, 0xE2, 0xEF, 0xF0, 0xF4):
+        for cy in (0x80, 0xA0, 0xBF):
+            ev = ("x10", 0, cx - 32, cy - 32)
+            cases.append(D.stream_case([ev], tag="x10-utf8"))
+            cases.append(D.stream_case([("runes", [97]), ev, ("ctl", 13, False), ("runes", [98])], tag="x10-utf8"))
+            dcases.append({"b": D.encode(ev), "more": False, "tag": "x10-utf8"})
+            dcases.append({"b": D.encode(ev) + [0xA9], "more": cy % 2 == 0, "tag": "x10-utf8"})
+    # a truncated multi-byte character at the end of a short read (an event boundary), then end of input or more input
+    for trunc in ([0xE4], [0xE4, 0xB8], [0xF0, 0x9F, 0x98], [0xC3]):
+        for pre in ([], [97, 98], [27]):
+            cases.append(D.bytes_case(pre + trunc, [256], err="eof", tag="truncated-utf8"))
+            cases.append(D.bytes_case(pre + trunc, [256], err="fail", tag="truncated-utf8"))
+            c = D.bytes_case(pre + trunc + [120], [256], err="eof", tag="truncated-utf8")
+            c["chunks"] = [pre + trunc, [120]]
+            cases.append(c)
     # unterminated pastes growing over several reads
     for ln in [0, 1, 250, 256, 600]:
         cases.append(D.bytes_case([27, 91, 50, 48, 48, 126] + soup(rnd, ln), [256], err="fail", tag="open-paste"))
